@@ -246,7 +246,7 @@ impl<K: HKey> Exec<K> {
         self.out.push(format!("R {} {} -> {}", self.idx, l, res));
         if let Some(n) = self.pending_note.take() { self.out.push(n); }
         if self.progress_fd >= 0 {
-            let s = format!("{} {}\n", self.idx, res);
+            let s = format!("{} {} count={}\n", self.idx, res, shim_count());
             unsafe { libc::write(self.progress_fd, s.as_ptr().cast(), s.len()); }
         }
         self.idx += 1;
@@ -526,6 +526,53 @@ fn run_case_modes<K: HKey>(case: &Case, mode: &str) {
                 }
             }
         }
+        "powerloss-all" => {
+            // one traced run with data; then images for every cut point x every set of files that
+            // lose their unsynced bytes
+            let sc0 = Scratch::new();
+            let outp0 = sc0.dir.path().join("out");
+            let prog = sc0.dir.path().join("progress");
+            unsafe { std::env::set_var("HX_SHIM_DATA", "1"); }
+            child_run(&sc0, (1, -1), &outp0, Some(&prog));
+            let raw = std::fs::read_to_string(sc0.log()).unwrap_or_default();
+            let groups = crate::plmode::parse_log(&raw);
+            // acknowledged operations per cut: the progress file records the call counter after each op
+            let acks: Vec<i64> = std::fs::read_to_string(&prog).unwrap_or_default().lines().filter_map(|l| l.split("count=").nth(1).and_then(|x| x.trim().parse().ok())).collect();
+            println!("CASE {} crash-total={}", case.name, groups.len());
+            let cfg = case_cfg(case);
+            let keys = case_keys(case);
+            // canonical staging names: order of creation
+            let mut stag: std::collections::HashMap<String, usize> = std::collections::HashMap::new();
+            for g in &groups { if let crate::plmode::Ev::Open(p, fl) = &g[0] { if fl.contains('X') && p.starts_with("staging/") { let n = stag.len(); stag.entry(p.clone()).or_insert(n); } } }
+            let canon = |p: &String| -> String { match stag.get(p) { Some(i) => format!("staging/#{i}"), None => p.clone() } };
+            let mut sim = crate::plmode::SimFs::default();
+            for n in 0..=groups.len() {
+                if n > 0 { for e in &groups[n - 1] { sim.apply(e); } }
+                let mut uns = sim.unsynced();
+                uns.sort_by_key(|p| canon(p));
+                if uns.is_empty() { continue; }
+                let m = uns.len();
+                let masks: Vec<usize> = if m <= 3 { (1..(1usize << m)).collect() } else { let mut v: Vec<usize> = (0..m).map(|i| 1usize << i).collect(); v.push((1usize << m) - 1); v };
+                for mask in masks {
+                    let victims: Vec<String> = (0..m).filter(|i| mask & (1 << i) != 0).map(|i| uns[i].clone()).collect();
+                    let sc = Scratch::new();
+                    sim.materialise(&sc.root(), &victims);
+                    let acked = acks.iter().filter(|c| **c <= n as i64).count();
+                    println!("CRASH {n}");
+                    println!("A status=powerloss acked={acked} victims={}", victims.iter().map(&canon).collect::<Vec<_>>().join(","));
+                    for l in dump_dir(&sc.root(), "C ", None) { println!("{l}"); }
+                    let rout = sc.dir.path().join("rec");
+                    let (root, log, q) = (sc.root(), sc.dir.path().join("rec.log"), sc.quarantine());
+                    let r = in_child(timeout, || {
+                        let lines = recovery_lines::<K>(&root, &log, &q, &cfg, &keys);
+                        let mut f = std::fs::File::create(&rout).unwrap();
+                        for l in lines { writeln!(f, "{l}").unwrap(); }
+                        0
+                    });
+                    match r { Some(0) => print_file(&rout), Some(c) => { print_file(&rout); println!("V exit={c}"); } None => println!("V hang") }
+                }
+            }
+        }
         m if m == "fault-all" || m.starts_with("fault:") => {
             let ks: Vec<i64> = if let Some(k) = m.strip_prefix("fault:") { vec![k.parse().unwrap()] } else {
                 let sc0 = Scratch::new();
@@ -550,7 +597,7 @@ fn run_case_modes<K: HKey>(case: &Case, mode: &str) {
 
 pub fn run_file(path: &str, mode: &str) {
     // library panics are reported as outcomes, not as noise on stderr
-    std::panic::set_hook(Box::new(|_| {}));
+    if std::env::var("HX_PANICS").is_err() { std::panic::set_hook(Box::new(|_| {})); }
     for case in parse_file(path) {
         let kt = kt_of(&case);
         dispatch!(kt, run_case_modes, &case, mode);
